@@ -208,6 +208,29 @@ def rule_process_data(ctx, f):
         ok = ok and all(cfg.must_pass_from_entry([e], lambda x: x.i in (rew[0].i, sav[0].i)) is None for e in evloop if any(evwhile and a is evwhile[0] for a in e.ancestors()))
         det = "later batches: set_get_position(%s) and current_time = start_time; first batch saves to %s" % (arg, saved_to)
     ctx.ob("C14.b-same-events-every-pass", f.qn, "rewind", ok, f.where(), det if ok else "passes over one frame do not all start from the saved frame start: " + det)
+    # every pass enters the event loop in the stream state the saved position stands for: no record is consumed between the save
+    # (first pass) or the rewind (later passes) and the event loop - a skip-ahead after the save would not be repeated after the
+    # rewind (the rewind sets the clock to the frame start), so later passes would re-read the events before the frame
+    if len(rew) == 1 and len(sav) == 1 and evwhile and recs:
+        main_ids = {m.i for m in evwhile[0].c[0].walk()} | {r.i for r in recs}
+        other_reads = {c.i for c in evloop if c.i not in {r.i for r in recs}}
+        for nm, call in (("after-save", sav[0]), ("after-rewind", rew[0])):
+            p = cfg.pos.get(call.i)
+            if p is None:
+                ctx.unrec(f.qn, "save/rewind call not found in the flow graph")
+                continue
+            w = cfg.paths_avoiding([p], lambda x: x.i in main_ids or x.i in (sav[0].i, rew[0].i), target_pred=lambda x: x.i in other_reads, to_exit=False)
+            ctx.ob("C14.b-same-events-every-pass", f.qn, "no-record-consumed-" + nm, w is None, call.where(), "the event loop is entered at the saved position: nothing is read in between" if w is None else "a record can be read between the %s and the event loop (blocks %s): the passes over a frame do not start at the same event" % (nm.split("-")[1], w))
+        # the position saved is the frame start: the skip-ahead loop (reads while current_time < start_time) is completed before the save
+        def cond_of(loop):
+            return loop.c[0] if loop.k == "WhileStmt" else (loop.c[1] if len(loop.c) == 4 else None)
+
+        skips = [w_ for w_ in f.walk() if w_.k in ("WhileStmt", "ForStmt") and w_ is not evwhile[0] and cond_of(w_) is not None and any(c.i in other_reads for c in w_.calls()) and re.search(r"\(< this\.current_time ", K(cond_of(w_)))]
+        ok_skip = False
+        if len(skips) == 1:
+            els = [m for m in cond_of(skips[0]).walk() if m.i in cfg.pos]
+            ok_skip = bool(els) and not any(a is skips[0] for a in sav[0].ancestors()) and any(cfg.dominates(e, sav[0]) for e in els)
+        ctx.ob("C14.b-same-events-every-pass", f.qn, "skip-to-frame-start-before-save", ok_skip, sav[0].where(), "events before the frame start are skipped (while current_time < start_time) before the frame's start position is saved" if ok_skip else "the saved position is not preceded by the skip to the frame start: events before the frame are histogrammed into it")
     # ---- e: allocate / save pairing
     al = [c for c in f.calls() if (c.callee or "").endswith("allocate_segments")]
     sv = [c for c in f.calls() if (c.callee or "").endswith("save_and_delete_segments")]
